@@ -9,7 +9,7 @@ table = subprocess.run(['python3', '/verif/tools/seeded_table.py'], capture_outp
 summary = table.stderr.strip().splitlines()[-1]
 text = '''### 12.7 Seeded changes (independent sub-agents, property text only) and which check catches which
 
-Five rounds, 200 changes (ten per property), each written by a fresh sub-agent that was given only the
+Six rounds, 240 changes (twelve per property), each written by a fresh sub-agent that was given only the
 property's entry of `properties.jsonl` and its own scratch worktree of /repo (nothing from /verif), each
 confirmed by me (`git apply` on a clean checkout; the demo passes without and fails with the change; the
 477 tests still pass; `git checkout -- .`): `seeded/<id>/{patch.diff, demo.py, meta.json, result.json,
@@ -54,6 +54,13 @@ What each round found, on its FIRST run against the machinery as it stood, and w
   container fields + a raise clause on `Config.__setitem__`; C07_10 → almost-valid key files; C14_10 → every
   schema construction route must give the documented variable names; C19_9 → values outside a format's domain
   (which also found a genuine defect, §12.5); **C17_9 was first *proved*** → §12.6b.
+* **Round 6 (`_11`, `_12`; least obvious clause, shared helpers, other objects, boundaries): 36/40.**  Misses: C10_11
+  (masked re-rendering of lists uses the raw item) → element-wise invariants on the re-rendering comprehension of
+  `to_tree` + containers of sensitive scalars in the driver (which found a genuine defect, §12.5); C11_12 (held list
+  re-validated only for Schema items) → `ListField._validate` clause "every configuration item of the list already
+  held is validated again" (loop invariant) + held items invalidated after insertion in the driver; C14_11 →
+  challenge/digest defaults with an environment binding; C16_11 (memoised enumeration) → enumeration after a schema
+  change and nested-start enumeration (which found a genuine defect of `get_all_fields`, §12.5).
 
 An *undecided* outcome (exit 2: a changed function left the verifier's subset and the bounded driver saw
 nothing) is counted as a miss.
